@@ -41,6 +41,21 @@ Theorem C14_balanced : forall tr p, core p = true -> let m := snd (run tr init p
   (forall r x, nth_error (arcs m) r = Some x -> r_strong x = r_caller x /\ r_freed x = (r_caller x =? 0)).
 Proof. exact balanced. Qed.
 
+(* eq, cmp and hash: on every program, whatever the two handles were built from (two borrows starting at
+   the same address with different lengths, overlapping borrows, equal content at different addresses,
+   owned, shared, clones, converted values), PartialEq::eq answers true exactly when Ord::cmp answers Equal
+   and exactly when the two hashes are equal ... *)
+Theorem C14_eq_ord_hash_coincide : forall tr p, core p = true ->
+  forallb (fun o => cmp_coherent (res_of o)) (fst (run tr init p)) = true.
+Proof. exact eq_ord_hash_coincide. Qed.
+
+(* ... and that answer is equality of the contents the two handles were built from (value semantics;
+   the model agrees by C14_model_meets_spec) *)
+Theorem C14_eq_is_content_equality : forall tr s h h' d o d' o', sget s h = Some (d, o) -> sget s h' = Some (d', o') ->
+  fst (fst (fst (sstep tr s (Cmp h h')))) = RCmp (lcmp d d') (ceqb d d') (ceqb d d') /\
+  (ceqb d d' = true <-> d = d') /\ (lcmp d d' = 1 <-> d = d').
+Proof. intros. split; [eapply cmp_is_content; eauto|]. split; [apply ceqb_iff|apply lcmp_iff]. Qed.
+
 (* counter form of balance, on the observable deltas: they sum to the number of Arcs the caller still
    holds and to the number of elements inside those Arcs (both 0 when the caller holds none) *)
 Theorem C14_balanced_counters : forall tr p, core p = true -> let m := snd (run tr init p) in all_consumed m ->
@@ -80,14 +95,27 @@ Theorem C14_checks_not_vacuous :
                      read m1 (mkcow (PHeap a) 0 cap) = inl UseAfterFree.
 Proof. exact checks_not_vacuous. Qed.
 
+(* aliasing borrows of one static buffer "abab": same start / different length, the empty prefix, equal
+   content at another address, an owned and a shared value of the same content *)
+Example C14_aliasing_example :
+  let b := [97; 98; 97; 98] in
+  let p := [FromBorrowed b 0 4; FromBorrowed b 0 2; FromBorrowed b 0 0; FromBorrowed b 2 2; FromBorrowed b 1 2;
+            FromOwned [97; 98] 2; ArcNew [97; 98]; FromShared 0;
+            Cmp 0 1; Cmp 1 0; Cmp 1 2; Cmp 1 3; Cmp 1 4; Cmp 1 5; Cmp 1 6; Cmp 2 2] in
+  core p = true /\ fst (run false init p) = spec_outs false p /\
+  map res_of (skipn 8 (fst (run false init p))) =
+    [RCmp 2 false false; RCmp 0 false false; RCmp 2 false false; RCmp 1 true true; RCmp 0 false false;
+     RCmp 1 true true; RCmp 1 true true; RCmp 1 true true].
+Proof. repeat split; vm_compute; reflexivity. Qed.
+
 Example C14_example :
   let p := [ArcNew [1;2]; FromShared 0; Clone 0; FromOwned [] 0; FromOwned [] 8; FromOwned [3] 4; Clone 4; Clone 2;
-            ArcDrop 0; IntoOwned 0; Deref 1; Cmp 4 5; WithExtra 1 [7]; WithExtra 2 [8]; WithExtra 4 []; FromBorrowed [9];
+            ArcDrop 0; IntoOwned 0; Deref 1; Cmp 4 5; WithExtra 1 [7]; WithExtra 2 [8]; WithExtra 4 []; FromBorrowed [9;9;8] 1 1;
             IntoStdCow 1; IntoStdCow 2; IntoOwned 3; IntoStdCow 4; Drop 5; IntoOwned 6; Drop 7; IntoStdCow 8; Drop 9; IntoStdCow 10] in
   core p = true /\ all_consumed (snd (run true init p)) /\ fst (run true init p) = spec_outs true p /\
   wsum da_of (fst (run true init p)) = 0%Z /\ wsum de_of (fst (run true init p)) = 0%Z /\
   map res_of (fst (run true init p)) =
-    [RUnit; RUnit; RUnit; RUnit; RUnit; RUnit; RUnit; RUnit; RUnit; RContent [1;2]; RContent [1;2]; RCmp 1; RUnit; RUnit; RUnit; RUnit;
+    [RUnit; RUnit; RUnit; RUnit; RUnit; RUnit; RUnit; RUnit; RUnit; RContent [1;2]; RContent [1;2]; RCmp 1 true true; RUnit; RUnit; RUnit; RUnit;
      RStd false [1;2]; RStd true []; RContent []; RStd false [3]; RUnit; RContent []; RUnit; RStd false [8]; RUnit; RStd true [9]].
 Proof.
   split; [reflexivity|]. split. { intros i. do 11 (destruct i as [|i]; [reflexivity|]). destruct i; reflexivity. }
